@@ -435,3 +435,55 @@ func VerifC05MemEviction() {
 	wait.Close(nil)
 	verifReach("c05.eviction-end")
 }
+
+// VerifC05MemReplaceParked: the memory cache at its size limit with the oldest segment pinned by an
+// open reader; the writer is parked for space inside a chunk (part of it stored). A replacement writer
+// is then offered at the old writer's own position or at the cache's right edge: whether it is
+// accepted or refused, the open reader afterwards delivers the history's bytes exactly once.
+func VerifC05MemReplaceParked() {
+	L := int64(verifParam("LOGSIZE", 2))
+	mc := verifC05Chan(L, 2*L)
+	mc.SetRunId("r1")
+	base := int64(100)
+	total := int(4 * L)
+	truth := verifBytes("aof", total) // the history's bytes at base .. base+4L-1
+	// one chunk that does not fit: 2L bytes fill the cache, the rest waits for space
+	big := int(2*L) + verifRange("over", 1, int(L))
+	w, err := mc.NewAofWritter(&verifC05Src{chunks: [][]byte{truth[:big]}}, base)
+	verifAssert(err == nil, "C05.mem.new-aof-writer")
+	rd, err := mc.NewReader(Offset{RunId: "r1", Offset: base})
+	verifAssert(err == nil, "C05.mem.valid-offset-but-no-reader")
+	if err != nil {
+		return
+	}
+	w.Start()
+	verifSettle()
+	_, stored := mc.GetOffsetRange("r1")
+	wr := w.Right()
+	verifCover(wr != stored, "c05.parked.writer-position-lags")
+	off := stored
+	if verifChoose("at", 2) == 1 {
+		off = wr
+	}
+	verifAssume(off >= base && off <= base+int64(big))
+	w2, err2 := mc.NewAofWritter(&verifC05Src{chunks: [][]byte{truth[off-base:]}}, off)
+	// (whether a writer inside the stored range is refused or merged is the cache's business; what counts
+	// is what a reader is given afterwards)
+	verifCover(err2 != nil, "c05.parked.refused")
+	if err2 != nil {
+		verifReach("c05.parked-end")
+		return
+	}
+	wait := usync.NewWaitCloser(nil)
+	rd.Start(wait)
+	w2.Start()
+	got := make([]byte, total)
+	n, rerr := io.ReadFull(rd.IoReader(), got)
+	verifAssert(rerr == nil && n == total, "C05.mem.eviction-leaves-open-reader-behind")
+	for i := 0; i < n && i < total; i++ {
+		verifAssert(got[i] == truth[i], "C05.mem.concurrent-reader-bytes")
+	}
+	rd.Close()
+	wait.Close(nil)
+	verifReach("c05.parked-end")
+}
